@@ -8,4 +8,13 @@ PROPS = {
         modelled=["MongoDB find natural order = insertion order; BatchUpdateDagIns' concurrent ReplaceOne calls are observed only through the final collection"],
         assumptions=["'every pending instance' is read as: every instance the round lists, i.e. the first 1000 init instances in store order (limit is part of the theorem statement)"],
     ),
+    "C16": dict(
+        families=[dict(name="dagvalid"), dict(name="tree")],
+        search=True,
+        refuted=["C16_unfixed_refuted: the pinned code accepted [a<-b; b<-a; c] (rootless cycle); repaired by fix commit 5726d17, the model follows the repaired code"],
+        partial=["C16_accept_complete / C16_accept_iff are stated under 'the explicit fuel of the level-order check did not run out' (fuel adequacy n+2 is validated by the correspondence run, not yet proved)",
+                 "acyclicity is stated as existence of a strictly decreasing rank (proved to exclude every dependency cycle); the converse for finite graphs is not proved"],
+        modelled=["node identity in the cycle check is the graph id (the code keys its visited map by instance id; the harness never gives two nodes the same instance id)"],
+        assumptions=["reference decision in the harness (Kahn) is independent of both model and code"],
+    ),
 }
